@@ -9,6 +9,11 @@ CHECKS = {
    note="Trusted: Coq kernel; model-to-code correspondence (harness + generators); float ops other than `as f64` and round() assumed exact (powers of two) and validated by the correspondence; libm log2 not modelled (theorem holds for every estimate); NaN/inf outside the model.",
    technique="Coq proof over executable model + differential correspondence (vm_compute) against gds21::GdsFloat64",
    design="5/C15"),
+ "C18": dict(
+   text="Layer 1 (proof): a generic Coq model of serde-derive's Serialize/Deserialize over type shapes, with theorem C18_de_ser (every shape-consistent type round-trips every well-typed value whose always-skipped fields hold their defaults); the shapes of GdsLibrary and LefLibrary are REGENERATED from gds21/src/data.rs and lef21/src/data.rs on every run by a translator, and shape_ok / the exact list of lossy fields are re-proved by vm_compute, so an inconsistent #[serde] attribute breaks a proof obligation. GDSII: unconditional round trip (no lossy field). LEF: round trip outside two known-finding classes. Layers 2-3 (JSON/YAML text, float printing, dedent): correspondence only (partial): generic values generated from the shapes go through the real types and the library's own to_string/from_str and save/open in both formats, compared for equality and bit identity, plus GDS bytes before/after.",
+   note="Trusted: Coq kernel; the translator (regex reader of Rust declarations); serde_derive behaves as modelled (validated: serde_json::to_value of every generated value equals the model's ser, and de of it returns the value); serde_json/serde_yaml/yaml-rust/textwrap/ryu text layers are NOT modelled (tested only).",
+   technique="Coq proof over translator-generated serde shapes + differential correspondence through serde_json/serde_yaml",
+   design="5/C18"),
 }
 REASON_PENDING = "not yet built in this round; planned in DESIGN.md section 5 (Coq model + correspondence)"
 def main():
